@@ -28,7 +28,7 @@ TOLERANCES = {
     "conservation": "(1e-12 + 4096*eps*G) * max|field|",
     "halo_equivalence": "max(1e-10, rounding model) * max|field| (enlarged-domain spacing differs in the last ulp)",
 }
-BUDGET = {"quick": dict(examples=400, shards=1), "thorough": dict(examples=2500, shards=16)}
+BUDGET = {"quick": dict(examples=1000, shards=1), "thorough": dict(examples=10000, shards=16)}
 
 
 def warmup():
